@@ -163,6 +163,13 @@ func (w *world) retProvOf(fn *types.Func, depth int) string {
 		switch {
 		case len(r.Results) == sig.Results().Len():
 			res = join(res, classify(r.Results[ri], map[types.Object]bool{}))
+		case len(r.Results) == 1 && sig.Results().Len() > 1:
+			// return f(…): the callee's results are handed on as they are
+			if c, ok := unparen(r.Results[0]).(*ast.CallExpr); ok {
+				res = join(res, classifyCall(c, map[types.Object]bool{}))
+			} else {
+				res = join(res, "unknown")
+			}
 		case len(r.Results) == 0 && named:
 			res = join(res, "unknown")
 		default:
